@@ -173,6 +173,8 @@ class World:
     def apply(self, op):
         """Returns (out, ret)."""
         name = op["op"]
+        if op["obj"] >= len(self.objs):
+            return "no-such-object", None   # addressed to a copy that was never made (the copy raised)
         p = self.objs[op["obj"]]
         ret = None
         try:
